@@ -1,8 +1,295 @@
 import RbV.Basic.Codec
-/-! Driver for property C18 (line protocol → verdict). -/
+import RbV.Spec.Containers
+import RbV.Model.BitEnc
+import RbV.Model.SmallInts
+import RbV.Model.Fenwick
+/-! Driver for property C18 (bit-packed containers behave like plain vectors).
+
+```
+c18 bitenc w:<w> c:<cap> <ops> => <obs>,<obs>,… | <len>/<nr_symbols>/<nr_blocks>/<is_empty> <iter> <get(len)>
+c18 si <i8|u8|u16|i16> <new|cap:n|fe:v:n> <ops> => <obs>,… | <len>/<is_empty> <values via get> <get(len)>
+c18 fw <sum|max> <len> <ops> => <obs>,… | <get(0).get(1).…>
+```
+The **oracle is the spec** (`RbV.Spec.*`: a plain list).  The mirror models (`RbV.Model.*`) are run next to
+it on every line; a disagreement between model and spec would contradict the refinement theorems and is
+reported as `bad-op` (a defect of this machinery, never of rust-bio).
+
+A mismatch is reported as `diff <op-kind> at:<k> exp:<…> got:<…>`; when the history contains, at or before
+the first mismatching operation, a `push_values` call that meets the trigger condition of one of the two
+recorded defects of `BitEnc::push_values`, the verdict carries `trig:pv-overrun` / `trig:pv-unmasked`
+(the known-finding entries match on these). -/
 namespace RbV.Drv.C18
 open RbV.Codec
 
-def verdict (_toks : List String) (_out : String) : String := "bad-op unimplemented"
+def dotNat (l : List Nat) : String := if l.isEmpty then "-" else ".".intercalate (l.map toString)
+def dotInt (l : List Int) : String := if l.isEmpty then "-" else ".".intercalate (l.map toString)
+
+def kvOf (tok key : String) : Option String :=
+  match tok.splitOn ":" with
+  | [k, v] => if k = key then some v else none
+  | _ => none
+
+/-- index of the first position where the two lists differ (or where one ends) -/
+def firstDiff : List String → List String → Nat → Option Nat
+  | [], ["-"], 0 => none      -- empty history: the harness prints `-`
+  | [], [], _ => none
+  | a :: as, b :: bs, k => if a = b then firstDiff as bs (k + 1) else some k
+  | _, _, k => some k
+
+def splitObs (out : String) : Option (List String × String) :=
+  match out.splitOn " | " with
+  | [a, b] => some (a.splitOn ",", b)
+  | _ => none
+
+/-! ### BitEnc -/
+section bitenc
+open RbV.Spec.BitEnc
+
+def parseBeOp (s : String) : Option Op :=
+  match s.splitOn ":" with
+  | ["p", v] => v.toNat?.map .push
+  | ["pv", n, v] => do let n ← n.toNat?; let v ← v.toNat?; pure (.pushValues n v)
+  | ["s", i, v] => do let i ← i.toNat?; let v ← v.toNat?; pure (.set i v)
+  | ["g", i] => i.toNat?.map .get
+  | ["it"] => some .iter
+  | ["clr"] => some .clear
+  | _ => none
+
+def beKind : Op → String
+  | .push _ => "p" | .pushValues _ _ => "pv" | .set _ _ => "s" | .get _ => "g" | .iter => "it" | .clear => "clr"
+
+/-- observation the spec predicts for `op` (state *after* the operation is `l'`) -/
+def beSpecObs (w : Nat) (l' : List Nat) : Op → String
+  | .get i => match l'[i]? with | some v => toString v | none => "N"
+  | .iter => dotNat l'
+  | _ => s!"{l'.length}/{specBlocks w l'.length}"
+
+/-- observation the mirror model predicts -/
+def beModelObs (w : Nat) (s' : Model.BitEnc.St) : Op → String
+  | .get i => match Model.BitEnc.get w s' i with | some v => toString v | none => "N"
+  | .iter => dotNat (Model.BitEnc.toList w s')
+  | _ => s!"{s'.len}/{Model.BitEnc.nrBlocks s'}"
+
+/-- trigger conditions of the two recorded `push_values` defects, evaluated on the spec state *before* the op -/
+def beTrig (w : Nat) (len : Nat) : Op → List String
+  | .pushValues n v =>
+    let per := perBlock w
+    let r := len % per
+    let rem := if r = 0 then 0 else per - r
+    (if 32 % w ≠ 0 ∧ r ≠ 0 ∧ n = rem + 1 then ["trig:pv-overrun"] else [])
+    ++ (if v ≥ 2 ^ w ∧ n > rem then ["trig:pv-unmasked"] else [])
+  | _ => []
+
+structure BeRun where
+  spec : List String := []       -- expected observations (reversed)
+  model : List String := []
+  trig : List (List String) := []  -- per op
+  tags : List String := []
+  maxLen : Nat := 0
+
+def beTagsOf (w : Nat) (len : Nat) : Op → List String
+  | .pushValues n v =>
+    let per := perBlock w
+    let r := len % per
+    let rem := if r = 0 then 0 else per - r
+    (if r ≠ 0 ∧ n ≥ 1 then ["pv-fill"] else []) ++ (if r ≠ 0 ∧ n = rem then ["pv-exact"] else [])
+    ++ (if r ≠ 0 ∧ n = rem + 1 then ["pv-rem+1"] else [])
+    ++ (if n ≥ rem + per then ["pv-full"] else []) ++ (if n > rem ∧ (len + n) % per ≠ 0 then ["pv-partial"] else [])
+    ++ (if n = 0 then ["pv-0"] else []) ++ (if v ≥ 2 ^ w then ["pv-bigv"] else [])
+  | .push v => if v ≥ 2 ^ w then ["p-bigv"] else []
+  | .set i v => (if v ≥ 2 ^ w then ["s-bigv"] else []) ++ (if i + 1 = len then ["s-last"] else [])
+  | .get i => if i ≥ len then ["g-none"] else []
+  | .clear => if len > 0 then ["clr"] else []
+  | .iter => []
+
+def beRun (w : Nat) : List Op → List Nat → Model.BitEnc.St → BeRun → BeRun × List Nat × Model.BitEnc.St
+  | [], l, s, r => (r, l, s)
+  | op :: ops, l, s, r =>
+    let l' := specStep w l op
+    let s' := Model.BitEnc.step w s op
+    beRun w ops l' s'
+      { spec := beSpecObs w l' op :: r.spec, model := beModelObs w s' op :: r.model,
+        trig := beTrig w l.length op :: r.trig, tags := beTagsOf w l.length op ++ r.tags,
+        maxLen := max r.maxLen l'.length }
+
+def dedup (l : List String) : List String := l.foldl (fun acc x => if acc.contains x then acc else acc ++ [x]) []
+
+def verdictBitenc (wt ct opsT out : String) : String :=
+  match (kvOf wt "w").bind String.toNat?, (kvOf ct "c").bind String.toNat?, parseList parseBeOp opsT with
+  | some w, some _, some ops =>
+    if w < 1 ∨ w > 8 then "bad-op width" else
+    let (r, l, s) := beRun w ops [] Model.BitEnc.new {}
+    let exp := r.spec.reverse
+    let trigs := r.trig.reverse
+    let fin := s!"{l.length}/{l.length}/{specBlocks w l.length}/{if l.isEmpty then 1 else 0} {dotNat l} N"
+    let finM := s!"{s.len}/{s.len}/{Model.BitEnc.nrBlocks s}/{if s.len = 0 then 1 else 0} {dotNat (Model.BitEnc.toList w s)} {match Model.BitEnc.get w s s.len with | some v => toString v | none => "N"}"
+    if r.model.reverse ≠ exp ∨ finM ≠ fin then "bad-op model-and-spec-disagree" else
+    match splitObs out with
+    | none => if out.startsWith "PANIC" || out.startsWith "HANG" || out.startsWith "CRASH" then "reject " ++ out else "bad-op output"
+    | some (obs, ofin) =>
+      match firstDiff exp obs 0 with
+      | some k =>
+        let kind := match ops[k]? with | some op => beKind op | none => "extra"
+        let tr := dedup ((trigs.take (k + 1)).flatten)
+        s!"diff bitenc-{kind} at:{k} exp:{exp.getD k "<none>"} got:{obs.getD k "<none>"}" ++ String.join (tr.map (" " ++ ·))
+      | none =>
+        if ofin ≠ fin then
+          let tr := dedup trigs.flatten
+          s!"diff bitenc-final exp:{fin}" ++ String.join (tr.map (" " ++ ·))
+        else
+          let nmut := (ops.filter (fun o => match o with | .get _ => false | .iter => false | _ => true)).length
+          let nt := nmut ≥ 2 ∧ r.maxLen > perBlock w
+          "ok" ++ (if nt then " nt" else "") ++ s!" bitenc w{w}" ++ String.join ((dedup r.tags).map (" " ++ ·))
+  | _, _, _ => "bad-op parse"
+
+end bitenc
+
+/-! ### SmallInts -/
+section smallints
+open RbV.Spec.SmallInts
+
+def parseSiOp (s : String) : Option Op :=
+  match s.splitOn ":" with
+  | ["p", v] => v.toInt?.map .push
+  | ["s", i, v] => do let i ← i.toNat?; let v ← v.toInt?; pure (.set i v)
+  | ["g", i] => i.toNat?.map .get
+  | ["it"] => some .iter
+  | ["dc"] => some .decompress
+  | _ => none
+
+def siKind : Op → String
+  | .push _ => "p" | .set _ _ => "s" | .get _ => "g" | .iter => "it" | .decompress => "dc"
+
+/-- (small min, small max) -/
+def siRange (ty : String) : Option (Int × Int) :=
+  match ty with
+  | "i8" => some (-128, 127) | "u8" => some (0, 255) | "u16" => some (0, 65535) | "i16" => some (-32768, 32767)
+  | _ => none
+
+def siSpecObs (l' : List Int) : Op → String
+  | .get i => match l'[i]? with | some v => toString v | none => "N"
+  | .iter => dotInt l'
+  | .decompress => dotInt l'
+  | _ => toString l'.length
+
+def siModelObs (hi : Int) (s' : Model.SmallInts.St) : Op → String
+  | .get i => match Model.SmallInts.get hi s' i with | some v => toString v | none => "N"
+  | .iter => dotInt (Model.SmallInts.toList hi s')
+  | .decompress => dotInt (Model.SmallInts.toList hi s')
+  | _ => toString s'.small.length
+
+def siRun (lo hi : Int) : List Op → List Int → Model.SmallInts.St → List String → List String →
+    List String × List String × List Int × Model.SmallInts.St
+  | [], l, s, e, m => (e.reverse, m.reverse, l, s)
+  | op :: ops, l, s, e, m =>
+    let l' := specStep l op
+    let s' := Model.SmallInts.step lo hi s op
+    siRun lo hi ops l' s' (siSpecObs l' op :: e) (siModelObs hi s' op :: m)
+
+def optInt : Option Int → String
+  | some v => toString v
+  | none => "N"
+
+def verdictSi (ty ctor opsT out : String) : String :=
+  match siRange ty, parseList parseSiOp opsT with
+  | some (lo, hi), some ops =>
+    let init : Option (Option (List Int × Model.SmallInts.St)) :=
+      match ctor.splitOn ":" with
+      | ["new"] => some (some ([], Model.SmallInts.new))
+      | ["cap", n] => n.toNat?.map (fun _ => some ([], Model.SmallInts.new))
+      | ["fe", v, n] => do
+          let v ← v.toInt?; let n ← n.toNat?
+          if v < lo ∨ v > hi then none
+          else if v > 0 ∧ ¬ v < hi then pure none   -- refused by the assertion of `from_elem`
+          else pure (some (specFromElem v n, Model.SmallInts.fromElem v n))
+      | _ => none
+    match init with
+    | none => "bad-op ctor"
+    | some none => if out = "P | P" then "ok si refused" else "reject si-from-elem-max-not-refused"
+    | some (some (l0, s0)) =>
+      let (exp, mod, l, s) := siRun lo hi ops l0 s0 [] []
+      let fin := s!"{l.length}/{if l.isEmpty then 1 else 0} {dotInt l} N"
+      let finM := s!"{s.small.length}/{if s.small.isEmpty then 1 else 0} {".".intercalate ((List.range s.small.length).map (fun i => optInt (Model.SmallInts.get hi s i)))} {optInt (Model.SmallInts.get hi s s.small.length)}"
+      let finM := if s.small.isEmpty then s!"0/1 - {optInt (Model.SmallInts.get hi s 0)}" else finM
+      if mod ≠ exp ∨ finM ≠ fin then "bad-op model-and-spec-disagree" else
+      match splitObs out with
+      | none => if out.startsWith "PANIC" || out.startsWith "HANG" || out.startsWith "CRASH" then "reject " ++ out else "bad-op output"
+      | some (obs, ofin) =>
+        match firstDiff exp obs 0 with
+        | some k =>
+          let kind := match ops[k]? with | some op => siKind op | none => "extra"
+          s!"diff si-{kind} at:{k} exp:{exp.getD k "<none>"} got:{obs.getD k "<none>"}"
+        | none =>
+          if ofin ≠ fin then s!"diff si-final exp:{fin}" else
+          let bigs := ops.filter (fun o => match o with | .push v => v ≥ hi ∨ v < lo | .set _ v => v ≥ hi ∨ v < lo | _ => false)
+          let hasMax := ops.any (fun o => match o with | .push v => v == hi | .set _ v => v == hi | _ => false)
+          let hasNeg := ops.any (fun o => match o with | .push v => v < 0 | .set _ v => v < 0 | _ => false)
+          let setAfterBig := ops.any (fun o => match o with | .set _ _ => true | _ => false)
+          let nt := ops.length ≥ 2 ∧ !bigs.isEmpty
+          "ok" ++ (if nt then " nt" else "") ++ s!" si {ty}" ++ (if hasMax then " eq-max" else "")
+            ++ (if hasNeg then " neg" else "") ++ (if setAfterBig then " set" else "")
+            ++ (if ctor.startsWith "fe" then " from_elem" else "")
+  | _, _ => "bad-op parse"
+
+end smallints
+
+/-! ### Fenwick trees -/
+section fenwick
+open RbV.Spec.Fenwick
+
+inductive FwOp where
+  | upd (i : Nat) (v : Int)
+  | qry (i : Nat)
+
+def parseFwOp (s : String) : Option FwOp :=
+  match s.splitOn ":" with
+  | ["u", i, v] => do let i ← i.toNat?; let v ← v.toInt?; pure (.upd i v)
+  | ["q", i] => i.toNat?.map .qry
+  | _ => none
+
+/-- spec and model side by side; `isSum` selects the operation -/
+def fwRun (isSum : Bool) : List FwOp → List (Nat × Int) → List Int → List String → List String →
+    List String × List String × List (Nat × Int) × List Int
+  | [], ups, tree, e, m => (e.reverse, m.reverse, ups, tree)
+  | .upd i v :: ops, ups, tree, e, m =>
+    let tree' := if isSum then Model.Fenwick.set (· + ·) 0 tree i v else Model.Fenwick.set max 0 tree i v
+    fwRun isSum ops (ups ++ [(i, v)]) tree' ("u" :: e) ("u" :: m)
+  | .qry i :: ops, ups, tree, e, m =>
+    let ex : Int := if isSum then prefixSum ups i else (prefixMax (ups.map (fun u => (u.1, u.2.toNat))) i : Nat)
+    let mo : Int := if isSum then Model.Fenwick.get (· + ·) 0 tree i else Model.Fenwick.get max 0 tree i
+    fwRun isSum ops ups tree (toString ex :: e) (toString mo :: m)
+
+def verdictFw (kind nT opsT out : String) : String :=
+  match nT.toNat?, parseList parseFwOp opsT with
+  | some n, some ops =>
+    if kind ≠ "sum" ∧ kind ≠ "max" then "bad-op kind" else
+    if n = 0 then "bad-op len" else
+    let isSum := kind = "sum"
+    if ops.any (fun o => match o with | .upd i v => i ≥ n ∨ (!isSum ∧ v < 0) | .qry i => i ≥ n) then "bad-op index" else
+    let (exp, mod, ups, tree) := fwRun isSum ops [] (Model.Fenwick.new (0 : Int) n) [] []
+    let finL : List Int := (List.range n).map (fun i =>
+      if isSum then prefixSum ups i else ((prefixMax (ups.map (fun u => (u.1, u.2.toNat))) i : Nat) : Int))
+    let finML : List Int := (List.range n).map (fun i =>
+      if isSum then Model.Fenwick.get (· + ·) 0 tree i else Model.Fenwick.get max 0 tree i)
+    if mod ≠ exp ∨ finML ≠ finL then "bad-op model-and-spec-disagree" else
+    match splitObs out with
+    | none => if out.startsWith "PANIC" || out.startsWith "HANG" || out.startsWith "CRASH" then "reject " ++ out else "bad-op output"
+    | some (obs, ofin) =>
+      match firstDiff exp obs 0 with
+      | some k => s!"diff fw-{kind} at:{k} exp:{exp.getD k "<none>"} got:{obs.getD k "<none>"}"
+      | none =>
+        if ofin ≠ dotInt finL then s!"diff fw-{kind}-final exp:{dotInt finL}" else
+        let nu := (ops.filter (fun o => match o with | .upd _ _ => true | _ => false)).length
+        "ok" ++ (if nu ≥ 2 ∧ n ≥ 3 then " nt" else "") ++ s!" fw-{kind}" ++ (if n ≥ 33 then " n>=33" else "")
+  | _, _ => "bad-op parse"
+
+end fenwick
+
+def verdict (toks : List String) (out : String) : String :=
+  match toks with
+  | ["bitenc", w, c, ops] => verdictBitenc w c ops out
+  | ["si", ty, ctor, ops] => verdictSi ty ctor ops out
+  | ["fw", kind, n, ops] => verdictFw kind n ops out
+  | _ => "bad-op arity"
 
 end RbV.Drv.C18
